@@ -1,5 +1,6 @@
 import Sonic.Proofs.ParseTop
 import Sonic.Proofs.ParseAssemble
+import Sonic.Proofs.Xmemcpy
 
 /-!
 # C03 — A successful Parse yields exactly the value the text denotes
@@ -109,5 +110,21 @@ example : ∃ sax', runEvs (Sax.setUp 0 (List.replicate 16 none))
   obtain ⟨sax', h1, h2, _⟩ := C03_sax_assemble (.arr [.null, .obj [.str 5 1, .arr []]]) (by decide)
     (Sax.setUp 0 (List.replicate 16 none)) [] ⟨by decide, rfl, by decide, rfl⟩ (by decide)
   exact ⟨sax', h1, by simpa using h2⟩
+
+/-- **The children-block copy is a copy.**  `SAXHandler::EndArray/EndObject` move the finished run of element / member nodes from the
+    node stack into the container's children block with `internal::Xmemcpy<16|32>`; the parser model treats that step as a list copy.
+    For all four kernels (AVX2/SSE × 16/32-byte chunks, modelled cursor by cursor in `Sonic.Model.Xmemcpy`), every chunk count and
+    every pair of blocks holding at least `chunks` chunks: no load or store leaves the first `chunks` chunks, and afterwards the
+    destination is the source's first `chunks` chunks followed by the destination's own untouched remainder. -/
+theorem C03_xmemcpy_copy {α : Type} (W size : Nat) (hsz : size = 16 ∨ size = 32) (src dst : List α) (chunks : Nat)
+    (hs : chunks * Sonic.Model.Xmemcpy.cells size ≤ src.length) (hd : chunks * Sonic.Model.Xmemcpy.cells size ≤ dst.length) :
+    (Sonic.Model.Xmemcpy.xmemcpy W size src dst chunks).ok = true ∧
+      (Sonic.Model.Xmemcpy.xmemcpy W size src dst chunks).dst =
+        src.take (chunks * Sonic.Model.Xmemcpy.cells size) ++ dst.drop (chunks * Sonic.Model.Xmemcpy.cells size) :=
+  Sonic.Proofs.Xmemcpy.xmemcpy_copy W size hsz src dst chunks hs hd
+
+/-- non-vacuity: 7 chunks of 32 bytes (one unrolled round + the 3-chunk tail) into a longer block -/
+example : (Sonic.Model.Xmemcpy.xmemcpy 32 32 (List.range 14) (List.replicate 20 99) 7).dst =
+    List.range 14 ++ List.replicate 6 99 := by decide
 
 end Sonic.Props.C03
